@@ -184,7 +184,7 @@ C10 == C10_Period /\ C10_Once /\ C10_DieWithActor /\ C10_TicksAreFires /\ C07_Fr
 -----------------------------------------------------------------------------
 (* C11 handler timeouts abandon exactly the invocations that exceed the limit *)
 C11_OnlyLate ==          \* abandoned only at or after the limit, never without a configured timeout
-  \A a \in Used : /\ ((act[a].tmo = 0 \/ act[a].stream) => (\A y \in hst.abt : y[1] # a))
+  \A a \in Used : /\ ((act[a].tmo < 0 \/ act[a].stream) => (\A y \in hst.abt : y[1] # a))
                    /\ (\A x \in hst.abt : x[1] = a => x[4] >= x[3] + act[a].tmo)
 C11_NoEffects ==         \* an abandoned invocation answers nobody and leaves no trace in the state
   \A a \in Used : \A x \in hst.abt : x[1] = a => (x[2] \notin HeSet(a) /\ x[2] \notin hst.okcall)
